@@ -324,6 +324,35 @@ def harvest_corpus():
     return ok
 
 
+# ---- laws replayed on the real evaluator with values the rational model does not have: floats that carry rounding noise ----
+NOISY = [('amount + 0.2', '0.3', {'amount': 0.1}), ('amount * 3', '0.3', {'amount': 0.1}), ('amount - 99.99', '0.01', {'amount': 100.0}),
+         ('sum(r.amount for r in orders)', 'txn.amount', {'amount': 0.3, 'orders': [0.1, 0.2]}), ('amount / 3 * 3', 'amount', {'amount': 0.7}),
+         ('amount', 'amount + 0.0000000001', {'amount': 5.0}), ('amount', '5', {'amount': 5.0}), ('amount * 1.1', '5.5', {'amount': 5.0}),
+         ('amount + 0.1', '0.3', {'amount': 0.2}), ('1.15 * 100', '115', {'amount': 1.0}), ('amount', '12.5', {'amount': 12.5})]
+
+
+def float_laws():
+    """MC_Expr!EqNeComplement (and Commute for ==) on the real code: whatever == answers, the equivalent rewritings answer the same."""
+    from tally import expr_parser as EP
+    fails, n = [], 0
+    for a, b, envd in NOISY:
+        txn = {'description': 'X', 'amount': envd['amount']}
+        ds = {'orders': [{'amount': x} for x in envd.get('orders', [])]}
+        forms = {'eq': '%s == %s' % (a, b), 'eq-swapped': '%s == %s' % (b, a), 'not-ne': 'not (%s != %s)' % (a, b),
+                 'le-and-ge': '(%s <= %s) and (%s >= %s)' % (a, b, a, b), 'not-lt-not-gt': 'not (%s < %s) and not (%s > %s)' % (a, b, a, b)}
+        vals = {}
+        for k, src in forms.items():
+            n += 1
+            try:
+                vals[k] = bool(EP.evaluate_transaction(src, dict(txn), {}, ds))
+            except EP.ExpressionError as ex:
+                vals[k] = 'err'
+        if len(set(vals.values())) > 1:
+            fails.append(({'site': 'evaluate_transaction', 'clause': 'law-EqNeComplement'}, {'a': a, 'b': b, 'env': envd, 'values': vals},
+                          'equivalent rewritings of %s == %s (amount %s) disagree: %s' % (a, b, envd['amount'], vals)))
+    return n, fails
+
+
 def record_and_validate(item):
     seed, n, corpus = item
     rnd = random.Random(seed)
@@ -414,6 +443,11 @@ def run(ck):
             ck.violation(sig, case, what)
         if sample:
             ck.sample(sample, cap=3)
+    n_law, law_fails = float_laws()
+    ck.case(n=n_law)
+    ck.trace(n_law)
+    for sig, case, what in law_fails:
+        ck.violation(sig, case, what)
     # 2. code -> spec
     corpus = harvest_corpus()
     ck.extra['corpus_expressions_from_repo'] = len(corpus)
